@@ -2183,7 +2183,9 @@ class BSP:
                     add_prims(face.primitives),
                     face.smoothing_groups,
                 ))
-            if hammer_ids:
+            # Only rebuild the ID lump if some face actually has an ID. Many maps have an empty FACEIDS
+            # lump, don't replace that with a block of dummy zeros just because the faces were parsed.
+            if hammer_ids and any(face.hammer_id is not None for face in faces):
                 self.lumps[BSP_LUMPS.FACEIDS].data = write_array(self.lump_layout['FACEID'], hammer_ids)
         return face_buf.getvalue()
 
